@@ -1626,7 +1626,14 @@ class Evaluator:
             s = self._unfilter(s)
             it = self.expr(s.iter, st, mod, fi, depth)
             tsrc = ast.unparse(s.target)
+            mapped_elem = None
+            if isinstance(it, Comp) and it.kind in ('list', 'gen') and len(it.gens) == 1 and not it.gens[0][2] and isinstance(s.target, ast.Name) and not s.orelse:
+                # for a in [E(x) for x in xs]: BODY  ==  for x in xs: a = E(x); BODY
+                mapped_elem = it.elt
+                tsrc, it = it.gens[0][0], it.gens[0][1]
             lit = it.value if isinstance(it, GlobalVal) else it      # a module-level table of evident rows
+            if mapped_elem is not None:
+                lit = Opaque('mapped')      # (never unrolled: the elements are images, not the items themselves)
             if isinstance(lit, Call) and isinstance(lit.func, Ext) and lit.func.name in ('reversed',) and len(lit.args) == 1 and isinstance(lit.args[0], TupleT):
                 lit = TupleT(tuple(reversed(lit.args[0].items)), lit.args[0].kind)
             members = self._enum_members_iter(it)
@@ -1679,6 +1686,8 @@ class Evaluator:
             for n in ast.walk(s.target):
                 if isinstance(n, ast.Name):
                     body_st.env[n.id] = Sym(f'each:{n.id}')
+            if mapped_elem is not None:
+                body_st.env[s.target.id] = mapped_elem
         inner: List[Outcome] = []
         cond_term = None
         if isinstance(s, ast.While):
